@@ -257,6 +257,10 @@ type c16Step struct {
 	Craft *rnstypes.Names // RnsKeeper.SetNames
 	Prim  *[3]string      // RnsKeeper.SetPrimaryName(owner, name, tld)
 	Fund  *[2]int64       // mint (account index, amount)
+	// another message of the name service delivered between registrations (list, delist, bid, records, data): none
+	// of them is a registration, so every live name keeps its holder and its term
+	Msg   sdk.Msg
+	MsgAt int64
 }
 
 const (
@@ -717,9 +721,24 @@ func c16DefaultFunds() map[int]*big.Int {
 		4: big.NewInt(19_999_999), 5: new(big.Int).Set(c16MaxBig), 9: big.NewInt(777)}
 }
 
+// other delivers one non-registering message of the module and judges the history-level clauses of the property
+func (h *c16Hist) other(st c16Step) {
+	w := h.w
+	w.e.At(st.MsgAt, T0)
+	pre := w.observe()
+	res := w.e.Run(st.Msg)
+	post := w.observe()
+	h.trace = append(h.trace, map[string]interface{}{"message": fmt.Sprintf("%T", st.Msg), "content": st.Msg, "height": st.MsgAt, "outcome": res.Out, "error": res.Err})
+	h.r.Hist("other-messages", fmt.Sprintf("%T %s", st.Msg, res.Out))
+	h.liveNamesKept(&pre, &post, st.MsgAt, "other-message")
+	h.termsHonoured(&post, big.NewInt(st.MsgAt))
+}
+
 func (h *c16Hist) run(steps []c16Step) {
 	for _, st := range steps {
-		if st.Op != nil {
+		if st.Msg != nil {
+			h.other(st)
+		} else if st.Op != nil {
 			h.step(st.Op)
 		} else {
 			h.craft(st)
@@ -807,6 +826,29 @@ func c16Scripted() [][]c16Step {
 	hs = append(hs, traps)
 	hs = append(hs, []c16Step{c16Reg(A, cand(0, 900), 3, 20), initAt(B, 900), initAt(B, 901), initAt(B, 901), c16Reg(A, cand(0, 902), 1, 901), initAt(C, 902), initAt(C, 1902+c16Bpy),
 		initAt("garbage", 5), initAt("", 5), initAt(strings.ToUpper(C[:10])+C[10:], 5)})
+	// the other messages of the module between registrations: a name that was listed and withdrawn, given records and
+	// data, bid on — is still its holder's for the paid term, nobody else can register it, and a renewal extends it
+	msg := func(at int64, m sdk.Msg) c16Step { return c16Step{Msg: m, MsgAt: at} }
+	H2 := int64(2_000_000)
+	hs = append(hs, []c16Step{c16Reg(A, "gallery.jkl", 2, 100),
+		msg(200, &rnstypes.MsgList{Creator: A, Name: "gallery.jkl", Price: sdk.NewInt64Coin("ujkl", 5_000_000)}),
+		c16Reg(B, "gallery.jkl", 1, 201),
+		msg(300, &rnstypes.MsgDelist{Creator: A, Name: "gallery.jkl"}),
+		c16Reg(B, "gallery.jkl", 1, H2), c16Reg(A, "gallery.jkl", 1, H2+1),
+		msg(H2+2, &rnstypes.MsgAddRecord{Creator: A, Name: "gallery.jkl", Value: A, Data: "{}", Record: "wing"}),
+		msg(H2+3, &rnstypes.MsgUpdate{Creator: A, Name: "gallery.jkl", Data: "{\"k\":1}"}),
+		msg(H2+4, &rnstypes.MsgMakePrimary{Creator: A, Name: "gallery.jkl"}),
+		msg(H2+5, &rnstypes.MsgDelRecord{Creator: A, Name: "wing.gallery.jkl"}),
+		msg(H2+6, &rnstypes.MsgList{Creator: A, Name: "gallery.jkl", Price: sdk.NewInt64Coin("ujkl", 1)}),
+		msg(H2+7, &rnstypes.MsgDelist{Creator: B, Name: "gallery.jkl"}),
+		c16Reg(C, "gallery.jkl", 1, H2+8), c16Reg(A, "Gallery.jkl", 3, H2+9), c16Reg(B, "gallery.jkl", 1, 100+6*c16Bpy-1), c16Reg(B, "gallery.jkl", 1, 100+6*c16Bpy)})
+	// open bids sit in the module's account: a registrant who cannot pay is not served out of them
+	hs = append(hs, []c16Step{c16Reg(A, "auction.jkl", 1, 10),
+		msg(11, &rnstypes.MsgBid{Creator: whale, Name: "auction.jkl", Bid: sdk.NewInt64Coin("ujkl", 900_000_000)}),
+		msg(11, &rnstypes.MsgBid{Creator: B, Name: "auction.jkl", Bid: sdk.NewInt64Coin("ujkl", 30_000_000)}),
+		c16Reg(poor, "bargain.jkl", 20, 12), c16Reg(poor, "bargain.jkl", 2, 12), c16Reg(poor, "bargain.jkl", 1, 12), c16Reg(poor, "q.jkl", 1, 13),
+		msg(14, &rnstypes.MsgCancelBid{Creator: B, Name: "auction.jkl"}),
+		c16Reg(poor, "bargain.jkl", 1, 15), c16Reg(B, "bargain.jkl", 1, 16)})
 	// crafted records: Expires at the int64 boundary, Locked / Subdomains / Data that a renewal resets,
 	// a record whose Value is the upper-case spelling (a different owner for the handler), stale primary names
 	max := int64(math.MaxInt64)
